@@ -62,9 +62,13 @@ def body_reports(stmts, priorities=("error", "critical")):
 
 
 def body_always_reports_or_exits(stmts):
-    """handler body reports an error, prints a message and exits, or re-raises"""
+    """handler body reports an error on EVERY path through it (must-dataflow), or prints a message and exits, or re-raises"""
     if body_reports(stmts):
-        return True
+        from ..engine import flow
+        mf = flow.MustFlow(lambda x: {"reported"} if is_report_call(x) else set())
+        mf.loop_stack = []
+        out = mf.block(stmts, frozenset())
+        return out is flow.TOP or "reported" in out
     for s in stmts:
         for n in ast.walk(s):
             if isinstance(n, ast.Call) and isinstance(n.func, ast.Attribute) and n.func.attr == "exit":
